@@ -29,6 +29,8 @@ def prop(line, impl, model):
             return prop_jwin(line, impl)
         if op == "jwrite":
             return prop_jwrite(line, impl)
+        if op == "jkey":
+            return prop_jkey(line, impl)
         if op == "jipc":
             return (prop_jipc(line, impl) or (None, None))[1]
         if op == "bin":
@@ -284,6 +286,27 @@ def prop_jwrite(line, impl):
     return None
 
 
+def prop_jkey(line, impl):
+    """The chunk written to the journal is the sketch of the KEYED hashes of the addresses and nothing else."""
+    a = line.split(" ")
+    k1, k2 = a[2].split(".")
+    n = len(set(a[3].split("."))) if a[3] != "-" else 0
+    d = kv(impl)
+    if d["journal"] != "sketch-only":
+        return "the journal line holds more than timestamps and a sketch (%s)" % d["journal"]
+    if int(d["n"]) != n:
+        return None
+    if int(d["own"]) != n:
+        return ("a chunk of %d distinct addresses merged with the sketch of their HMAC-SHA3-256(key, address) values counts %s: "
+                "the stored sketch is not the sketch of the keyed hashes" % (n, d["own"]))
+    if n and k1 != k2 and int(d["other"]) != 2 * n:
+        return ("the stored sketch of %d addresses shares values with the sketch of the same addresses under ANOTHER key "
+                "(merged count %s, want %d): the stored values do not depend on the key" % (n, d["other"], 2 * n))
+    if n and int(d["nokey"]) != 2 * n:
+        return "the stored sketch equals the sketch under the empty key (merged count %s, want %d)" % (d["nokey"], 2 * n)
+    return None
+
+
 def gen_journal(ctx):
     rng = ctx.rng
     thorough = ctx.tier == "thorough"
@@ -315,6 +338,12 @@ def gen_journal(ctx):
         n = rng.choice([17, 40, 60])
         base = rng.randrange(100, 60000)
         add("jwin 0 100 0:50:%s;50:100:%s" % (".".join(str(base + i) for i in range(n)), ".".join(str(base + n // 2 + i) for i in range(n))), "jwin-larger-sets")
+    # what a chunk stores: keyed hashes only
+    for ks in ("1.2", "1.1", "7.3"):
+        for ipl in ("-", "5", "5.5.5", "1.2.3.4.5.6.7.8", ".".join(str(1000 + i) for i in range(40))):
+            add("jkey %s %s" % (ks, ipl), "jkey")
+    for _ in range(10 if not thorough else 100):
+        add("jkey %d.%d %s" % (rng.randrange(1, 50), rng.randrange(1, 50), ips(maxn=12, uni=60000)), "jkey-random")
     # the real writer on a tick grid
     for _ in range(60 if not thorough else 600):
         k = rng.choice([0, 1, 2, 3, 5])
@@ -457,6 +486,8 @@ def key_of(line, impl, model):
         return "journal-window"
     if op == "jwrite":
         return "journal-writer"
+    if op == "jkey":
+        return "journal-not-keyed-sketch"
     if op == "jipc":
         try:
             return (prop_jipc(line, impl) or ("journal-broker", None))[0]
@@ -529,7 +560,7 @@ def replay(ctx, doc):
         if not case:
             continue
         m = vlib.run_model([case])[0]
-        if case.split(" ")[1] in ("jwin", "jwrite"):
+        if case.split(" ")[1] in ("jwin", "jwrite", "jkey"):
             rc, r, err = vlib.run_impl(vlib.go_build("./zz_verif/c19journal"), [case])
         else:
             rc, r, err = vlib.run_impl(exe, [case], args=DRV_ARGS)
